@@ -240,13 +240,13 @@ def load_many(lit: LineIterator) -> Iterator[dict]:
     """Do not edit this docstring. It will be overwritten."""
     # XYZ Trajectory files are a simple concatenation of individual XYZ files,'
     # making it trivial to load many frames.
-    try:
-        while True:
-            # Check for and skip empty lines at the end of file
+    while True:
+        # Check for and skip empty lines at the end of file
+        try:
             line = next(lit)
-            if line.strip() == "":
-                return
-            lit.back(line)
-            yield load_one(lit)
-    except StopIteration:
-        return
+        except StopIteration:
+            return
+        if line.strip() == "":
+            return
+        lit.back(line)
+        yield load_one(lit)
